@@ -136,13 +136,14 @@ func (s *stream) Reassembled(rs []tcpassembly.Reassembly) {
 	hs := s.hs
 	for _, r := range rs {
 		if hs.inFO && r.Skip != 0 && !r.Seen.Before(hs.cutoff) {
-			hs.fail("age-flush-released-newer-data", fmt.Sprintf("FlushOlderThan released data seen at +%v with skip %d although the cut-off is +%v", r.Seen.Sub(t0), r.Skip, hs.cutoff.Sub(t0)))
+			hs.fail("age-flush-released-newer-data", fmt.Sprintf("FlushOlderThan released data seen at +%v with skip %d although the cut-off is +%v", r.Seen.Sub(hs.t0), r.Skip, hs.cutoff.Sub(hs.t0)))
 		}
 	}
 }
 func (s *stream) ReassemblyComplete() { s.completes++ }
 
 type hist struct {
+	t0      time.Time
 	streams []*stream
 	viol    string
 	what    string
@@ -158,6 +159,7 @@ func (hs *hist) fail(k, w string) {
 }
 
 type harness struct {
+	t0     time.Time // start time of the current history: time never goes backwards on a recycled instance
 	pool   *tcpassembly.StreamPool
 	asm    *tcpassembly.Assembler
 	cur    *hist
@@ -181,7 +183,7 @@ func (h *harness) reset() {
 	h.resets++
 }
 
-var t0 = time.Unix(1_000_000, 0)
+var epoch = time.Unix(1_000_000, 0)
 
 func (h *harness) payload(a, b int) []byte {
 	if h.bufs == nil {
@@ -202,6 +204,12 @@ func (h *harness) payload(a, b int) []byte {
 func (h *harness) run(f *family, lim [2]int, seq []int) (hs *hist) {
 	hs = &hist{}
 	h.cur = hs
+	if h.t0.IsZero() {
+		h.t0 = epoch
+	}
+	h.t0 = h.t0.Add(time.Duration(len(seq)+3) * time.Second)
+	t0 := h.t0
+	hs.t0 = t0
 	h.asm.MaxBufferedPagesPerConnection, h.asm.MaxBufferedPagesTotal = lim[0], lim[1]
 	h.ctr++
 	defer func() {
@@ -311,6 +319,14 @@ func (h *harness) run(f *family, lim [2]int, seq []int) (hs *hist) {
 	return hs
 }
 
+func (hs *hist) summary() string {
+	s := hs.viol
+	for _, st := range hs.streams {
+		s += fmt.Sprintf("|%d,%d,%v", st.completes, st.deliv, st.after)
+	}
+	return s
+}
+
 func describe(f *family, lim [2]int, seq []int) map[string]any {
 	var ev []string
 	for _, i := range seq {
@@ -341,6 +357,9 @@ func main() {
 				h := &harness{}
 				h.reset()
 				fmt.Println("replaying", describe(&fams[i], [2]int{f.Replay.PC, f.Replay.PT}, f.Replay.Seq))
+				if os.Getenv("VERIF_REPLAY_WARM") != "" {
+					h.run(&fams[i], [2]int{f.Replay.PC, f.Replay.PT}, []int{0, 1, 2, 3, 4})
+				}
 				hs := h.run(&fams[i], [2]int{f.Replay.PC, f.Replay.PT}, f.Replay.Seq)
 				if hs.viol != "" {
 					fmt.Println("REPRODUCED", hs.viol, hs.what)
@@ -350,6 +369,19 @@ func main() {
 			}
 		}
 		os.Exit(0)
+	}
+	var curF *family
+	var curLim [2]int
+	var hangLocals []*report.Local
+	statex.OnHang = func(seq []int) {
+		r.Violation("c11|tcpassembly|hang|a history does not terminate", fmt.Sprintf("no progress for %v on one history", statex.HangAfter), 0, describe(curF, curLim, seq))
+		for _, l := range hangLocals {
+			r.MergeLocal(l)
+		}
+		r.Exhaustive = false
+		r.Coverage["states"], r.Coverage["transitions"], r.Coverage["traces_validated_against_impl"] = 1, 1, 0
+		r.Coverage["samples"] = []any{describe(curF, curLim, seq)}
+		r.Finish()
 	}
 	workers := runtime.NumCPU()
 	hs := make([]*harness, workers)
@@ -361,6 +393,9 @@ func main() {
 		locals[i] = report.NewLocal()
 		outc[i] = map[string]struct{}{}
 	}
+	hangLocals = locals
+	diffCtr := make([]int64, workers)
+	diffs := make([]int64, workers)
 	var total, trans int64
 	var samples []any
 	per := map[string]any{}
@@ -369,8 +404,21 @@ func main() {
 		var ftotal int64
 		for _, lim := range f.limits {
 			lim := lim
+			curF, curLim = f, lim
 			cnt, complete := statex.Sequences(len(f.alpha), f.depth, workers, r.Expired, func(w int, seq []int) {
 				h := hs[w].run(f, lim, seq)
+				diffCtr[w]++
+				if diffCtr[w]%4099 == 0 {
+					// start-from-non-initial-state differential: the recycled instance must behave like a brand-new one
+					fresh := &harness{}
+					fresh.reset()
+					if h2 := fresh.run(f, lim, seq); h2.summary() != h.summary() {
+						locals[w].Add("c11|tcpassembly|differential|recycled assembler behaves differently from a fresh one", int64(len(seq)), func() (string, any) {
+							return fmt.Sprintf("recycled: %q fresh: %q", h.summary(), h2.summary()), describe(f, lim, seq)
+						})
+					}
+					diffs[w]++
+				}
 				nc, nd := 0, 0
 				for _, s := range h.streams {
 					nc += s.completes
@@ -410,6 +458,11 @@ func main() {
 	r.Coverage["families"] = per
 	r.Coverage["distinct_outcomes"] = len(out)
 	r.Coverage["instance_resets"] = resets
+	var nd int64
+	for _, d := range diffs {
+		nd += d
+	}
+	r.Coverage["histories_rerun_on_fresh_instance_identical"] = nd
 	r.Coverage["samples"] = samples
 	r.Coverage["explanation"] = "tcpassembly: every history of the stated length over each family's alphabet (segments of one or several connections/directions, RST, age flushes with cut-offs before/between/after the arrivals, FlushAll) followed by a final FlushAll runs on the real assembler for every page-limit setting; a monitor using injected read-only accessors checks after every step: completion callback at most once and no data after it; page limits exceeded by at most the pages of the packet in hand; FlushOlderThan leaves no connection waiting on data older than the cut-off and forces out no data newer than it; after FlushAll every stream completed exactly once, the pool is empty and no page is in use."
 	r.Assumptions = []string{"accessors read pool/page-cache private state without modifying it", "recycled assembler: verified clean (empty pool, zero pages) after every history, replaced otherwise"}
